@@ -145,6 +145,8 @@ def gen_config(rng, tier, profile):
       s['CACHE_METRIC_NAMES_TTL'] = rng.choice([1, 30])
   files = {'relay-rules.conf': gen_relay_rules(rng, dests),
            'aggregation-rules.conf': '\n'.join(rng.sample(AGG_RULES, rng.randint(1, len(AGG_RULES)))) + '\n'}
+  if profile == 'c16' and 'aggregated' in method and rng.random() < 0.15:
+    files['aggregation-rules.conf'] = None      # not deployed yet when the relay starts
   return {'daemon': 'relay', 'settings': s, 'files': files, 'profile': profile}
 
 
@@ -253,8 +255,12 @@ def gen_plan(rng, cfg, tier, profile):
       elif r < 0.45:
         # the next re-read of the file fails with an I/O error (at open / after one line)
         ops.append(['rules_fault', rng.choice(['open', 'iter', 'iter'])])
-      ops.append(['file', 'aggregation-rules.conf',
-                  '\n'.join(rng.sample(AGG_RULES + AGG_RULES_ALT, rng.randint(1, 5))) + '\n'])
+      if rng.random() < 0.12:
+        # every rule removed (or commented out): from the next re-read on nothing is aggregated
+        ops.append(['file', 'aggregation-rules.conf', rng.choice(['', '# no rules at present\n', '\n\n'])])
+      else:
+        ops.append(['file', 'aggregation-rules.conf',
+                    '\n'.join(rng.sample(AGG_RULES + AGG_RULES_ALT, rng.randint(1, 5))) + '\n'])
       ops.append(['advance', rng.choice([10.0, 10.5, 12.0, 21.0])])
   if profile == 'c07' and rng.random() < 0.3:
     # an orderly stop, sometimes with traffic still arriving while connections close
